@@ -431,6 +431,44 @@ func CatalogueCases() []RobustCase {
 		try("GET", "/status", nil, nil)
 		return strings.Join(answers, ","), nil
 	})
+	// uploads that the disk layer refuses before it reads a byte (hard limit reached): whoever feeds the
+	// payload must not be left behind
+	add("SpliceBlob and ByteStream.Write refused up front by max_size_hard_limit", false, func(f *fe.Fixture, rng *rand.Rand) (string, error) {
+		f2, err := fe.New(fe.Opts{Mode: f.Opts.Mode, MaxSize: 4 << 20, HardLimit: 4 << 20})
+		if err != nil {
+			return "", err
+		}
+		defer f2.Close()
+		var chunks []*pb.Digest
+		var all []byte
+		for i := 0; i < 3; i++ {
+			c := drv.GenData(rng, 1<<20-100000, 0)
+			chunks = append(chunks, storeCAS(f2, c))
+			all = append(all, c...)
+		}
+		var answers []string
+		for i := 0; i < 3; i++ {
+			ctx, cancel := fe.Ctx()
+			_, e := f2.CAS.SpliceBlob(ctx, &pb.SpliceBlobRequest{BlobDigest: dg(all), ChunkDigests: chunks})
+			cancel()
+			answers = append(answers, "splice:"+code(e))
+		}
+		// the same blob through ByteStream.Write
+		ctx, cancel := fe.Ctx()
+		w, e := f2.BS.Write(ctx)
+		if e == nil {
+			d := dg(all)
+			e = w.Send(&bytestream.WriteRequest{ResourceName: fmt.Sprintf("uploads/%08x-1111-2222-3333-444444444444/blobs/%s/%d", rng.Uint32(), d.Hash, d.SizeBytes), Data: all[:1 << 20]})
+			if e == nil {
+				_ = w.Send(&bytestream.WriteRequest{WriteOffset: 1 << 20, Data: all[1<<20:], FinishWrite: true})
+			}
+			_, e = w.CloseAndRecv()
+		}
+		cancel()
+		answers = append(answers, "write:"+code(e))
+		time.Sleep(50 * time.Millisecond)
+		return strings.Join(answers, ","), nil
+	})
 	add("FindMissingBlobs abandoned while backend lookups are queued", false, func(f *fe.Fixture, rng *rand.Rand) (string, error) {
 		if f.Opts.Proxy == nil {
 			return "skipped", nil
